@@ -22,6 +22,9 @@ import (
 	"testing"
 	"time"
 
+	v2 "mosn.io/mosn/pkg/config/v2"
+	_ "mosn.io/mosn/pkg/filter/stream/transcoder"
+	_ "mosn.io/mosn/pkg/filter/stream/transcoder/httpconv"
 	"mosn.io/mosn/pkg/log"
 	"pgregory.net/rapid"
 
@@ -35,7 +38,9 @@ const (
 	probeDeadline = 15 * time.Second
 )
 
-var listenerProtos = []string{"Http1", "bolt", "dubbo", "Http2", "Auto"}
+// "H1toH2" is an HTTP/1 listener whose requests are converted by the transcoder stream filter for an HTTP/2 cluster: every
+// downstream connection shares ONE multiplexed upstream connection (and its HPACK state) with all the others
+var listenerProtos = []string{"Http1", "bolt", "dubbo", "Http2", "Auto", "H1toH2"}
 
 // ---------------------------------------------------------------- garbage generation
 
@@ -188,6 +193,42 @@ func genH1Garbage(t *rapid.T) *garbage {
 	return g
 }
 
+// genH2Unfit: complete HTTP/1 requests that the HTTP/1 side accepts (or may accept) but that do not fit HTTP/2 as they
+// are: field values with control bytes, connection-specific fields, names outside the HTTP/2 token set, very long and
+// very many fields - each with a path nobody used before, so that whatever the upstream-side header compression learns
+// from it is new. What the proxy does with such a request is its own business (error reply, close, forwarding a cleaned
+// request); what matters here is everybody else on the shared upstream connection.
+func genH2Unfit(t *rapid.T) *garbage {
+	g := &garbage{Kind: "h2-unfit-request", Plaus: true}
+	path := fmt.Sprintf("/unfit-%d-%s", rapid.IntRange(0, 1<<30).Draw(t, "pathId"), string(codec.Fill(rapid.SampledFrom([]int{1, 20, 200}).Draw(t, "pathLen"), 9, true)))
+	hdr := [][2]string{{"X-Plain", "v"}}
+	switch rapid.IntRange(0, 7).Draw(t, "unfit") {
+	case 0, 1:
+		hdr = append(hdr, [2]string{"X-Evil", "a" + rapid.SampledFrom([]string{"\x01", "\x7f", "\x0b", "\x1f", "\x08"}).Draw(t, "ctl") + "b"})
+	case 2:
+		hdr = append(hdr, [2]string{"Connection", "keep-alive, X-Hop"}, [2]string{"X-Hop", "1"}, [2]string{"Keep-Alive", "timeout=5"}, [2]string{"TE", "gzip"}, [2]string{"Upgrade", "h2c"})
+	case 3:
+		hdr = append(hdr, [2]string{rapid.SampledFrom([]string{"X_Under", "x@at", "X(Paren)", "X\"Quote", "x{brace}", "X/Slash"}).Draw(t, "name"), "v"})
+	case 4:
+		hdr = append(hdr, [2]string{"X-Long", string(codec.Fill(rapid.SampledFrom([]int{5000, 7000}).Draw(t, "long"), 5, true))})
+	case 5:
+		for i := 0; i < rapid.SampledFrom([]int{60, 200}).Draw(t, "many"); i++ {
+			hdr = append(hdr, [2]string{fmt.Sprintf("X-Many-%d", i), "v"})
+		}
+	case 6:
+		hdr = append(hdr, [2]string{"X-Evil", "\x01"}, [2]string{"X-After", "w"})
+	case 7:
+		hdr = append(hdr, [2]string{":path", "/smuggled"}, [2]string{"X-After", "w"})
+	}
+	var body []byte
+	method := "GET"
+	if rapid.Bool().Draw(t, "withBody") {
+		method, body = "POST", codec.Fill(rapid.SampledFrom([]int{1, 300}).Draw(t, "bodyLen"), 2, true)
+	}
+	g.Bytes = mesh.RawRequest(method, path, "unfit.example", hdr, body, false)
+	return g
+}
+
 func h2Frame(typ, flags byte, stream uint32, payload []byte) []byte {
 	b := make([]byte, 9+len(payload))
 	b[0], b[1], b[2] = byte(len(payload)>>16), byte(len(payload)>>8), byte(len(payload))
@@ -297,7 +338,15 @@ func genGarbage(proto string) *rapid.Generator[hold[garbage]] {
 			p = rapid.SampledFrom([]string{"Http1", "Http2", "bolt", "dubbo", "none"}).Draw(t, "autoFlavour")
 		}
 		var g *garbage
+		if p == "H1toH2" {
+			p = "Http1"
+			if rapid.IntRange(0, 9).Draw(t, "unfitForH2") < 5 {
+				p = "H1toH2"
+			}
+		}
 		switch p {
+		case "H1toH2":
+			g = genH2Unfit(t)
 		case "Http1":
 			g = genH1Garbage(t)
 		case "Http2":
@@ -318,6 +367,9 @@ func genGarbage(proto string) *rapid.Generator[hold[garbage]] {
 func genUpstreamGarbage(proto string) *rapid.Generator[hold[garbage]] {
 	return rapid.Custom(func(t *rapid.T) hold[garbage] {
 		g := &garbage{Plaus: true}
+		if proto == "H1toH2" {
+			proto = "Http2"
+		}
 		switch proto {
 		case "Http1", "Auto":
 			g.Kind = "http1-response-garbage"
@@ -505,10 +557,7 @@ func (e *echoServer) Notes() string {
 func (e *echoServer) Close() { e.close() }
 
 func echoUpstream(proto string) *echoServer {
-	up := proto
-	if proto == "Auto" {
-		up = "Http1"
-	}
+	up := upProto(proto)
 	e := &echoServer{}
 	switch up {
 	case "Http1", "Http2":
@@ -555,10 +604,25 @@ func echoUpstream(proto string) *echoServer {
 }
 
 func upProto(proto string) string {
-	if proto == "Auto" {
+	switch proto {
+	case "Auto":
 		return "Http1"
+	case "H1toH2":
+		return "Http2"
 	}
 	return proto
+}
+
+// listenerOpts: listener and cluster protocols of a case for the scenario's protocol label.
+func listenerOpts(proto string, hosts []string) mesh.Opts {
+	o := mesh.Opts{Down: proto, Up: upProto(proto), Hosts: hosts}
+	if proto == "H1toH2" {
+		// protocol conversion is done by the transcoder stream filter, configured the way the repository's own
+		// protocol-convert cases are
+		o.Down = "Http1"
+		o.StreamFilters = []v2.Filter{{Type: "transcoder", Config: map[string]interface{}{"type": "httpTohttp2"}}}
+	}
+	return o
 }
 
 // ---------------------------------------------------------------- the property
@@ -631,12 +695,16 @@ func containmentCase(rt *rapid.T, sc *scenario) {
 	ev.Extra(partContain, "garbage_connections", int64(total))
 
 	second := "Http1"
-	if sc.Proto == "Http1" || sc.Proto == "Auto" {
+	if sc.Proto == "Http1" || sc.Proto == "Auto" || sc.Proto == "H1toH2" {
 		second = "bolt"
 	}
 	desc := fmt.Sprintf("listener %s hammered by %d garbage clients (%d connections), %d garbage upstream replies, second listener %s", sc.Proto, len(sc.Clients), total, len(sc.Upstream), second)
 	fail := func(sig, format string, a ...interface{}) {
-		ev.Fail(rt, partContain, "contain/"+sc.Proto+"/"+sig, "%s: %s", desc, fmt.Sprintf(format, a...))
+		label := sc.Proto
+		if sc.Proto == "H1toH2" && sig == "allocates-announced-length:http1-request-content-length" {
+			label = "Http1" // the listed finding of the HTTP/1 listener (same server stream, same call site), whatever the cluster speaks
+		}
+		ev.Fail(rt, partContain, "contain/"+label+"/"+sig, "%s: %s", desc, fmt.Sprintf(format, a...))
 	}
 
 	// A: hammered listener with a correct upstream; C: second listener of another protocol
@@ -673,7 +741,7 @@ func containmentCase(rt *rapid.T, sc *scenario) {
 			}
 		}
 	}()
-	csA, err := mesh.NewCaseBound(mesh.Opts{Down: sc.Proto, Up: upProto(sc.Proto), Hosts: []string{upA.Addr}})
+	csA, err := mesh.NewCaseBound(listenerOpts(sc.Proto, []string{upA.Addr}))
 	if err != nil {
 		rt.Skip("rig: " + err.Error())
 	}
@@ -710,7 +778,9 @@ func containmentCase(rt *rapid.T, sc *scenario) {
 		}
 	})
 	if len(sc.Upstream) > 0 {
-		csB, err = mesh.NewCaseBound(mesh.Opts{Down: sc.Proto, Up: upProto(sc.Proto), Hosts: []string{upB.Addr}, Timeout: 300 * time.Millisecond})
+		ob := listenerOpts(sc.Proto, []string{upB.Addr})
+		ob.Timeout = 300 * time.Millisecond
+		csB, err = mesh.NewCaseBound(ob)
 		if err != nil {
 			rt.Skip("rig: " + err.Error())
 		}
